@@ -249,7 +249,7 @@ ENC = [M.Manager._dispatcher, M.Manager._eventDone, M.Manager.processTask, M.Man
 def canaries():
     from harness.common import mutate
     return [
-        ('success-despite-error', 'shapes', lambda: mutate(M.Manager, '_eventDone', 'if err is None and event.success:', 'if event.success:'), ['success-event-count']),
+        ('success-despite-error', 'shapes', lambda: mutate(M.Manager, '_eventDone', 'if err is None and not event.value.errors and event.success:', 'if event.success:'), ['success-event-count']),
         ('no-exception-event-for-generators', 'shapes', lambda: mutate(M.Manager, 'processTask', 'self.fire(exception(*err, handler=None, fevent=event))', 'pass'), ['exception-event-count']),
         ('setvalue-drops-second', 'shapes', lambda: mutate(V.Value, 'value', 'self._value = [self._value]\n        self._value.append(value)', 'self._value = [self._value]', accessor='fset'), ['value']),
         ('success-before-generators', 'shapes', lambda: mutate(M.Manager, '_eventDone', 'if event.waitingHandlers:\n        return', 'if event.waitingHandlers and not event.success:\n        return'), ['success-too-early', 'success-event-count', 'later-event-feedback']),
